@@ -886,6 +886,24 @@ func checkD7D8(c *Ctx) {
 					problems = append(problems, "a failed zero-share test does not make the constructor fail")
 				}
 				c.R.Check(len(problems) == 0, "D8", key, p.InstrPos(call), "for-all over the divided list", strings.Join(problems, "; "))
+				var bypass []string
+				// no success return goes round the test (or round the creation-time division)
+				for _, b2 := range fn.Blocks {
+					ret, isRet := b2.Instrs[len(b2.Instrs)-1].(*ssa.Return)
+					if !isRet || b2 == fn.Recover || len(ret.Results) == 0 || p.provablyError(ret.Results[len(ret.Results)-1], b2) {
+						continue
+					}
+					tested := false
+					for _, e := range DomEdges(b2) {
+						if p.edgeIsCallResult(e, func(f *ssa.Function) bool { return f == cal }, true) {
+							tested = true
+						}
+					}
+					if !tested {
+						bypass = append(bypass, "the return at "+p.InstrPos(ret)+" reports success without the zero-share test having passed (under: "+describeEdges(p, DomEdges(b2))+"): such configurations are accepted unchecked")
+					}
+				}
+				c.R.Check(len(bypass) == 0, "D8", p.FnKey(fn)+"#zero-share-bypass", p.InstrPos(call), "every success return is dominated by the passed test", strings.Join(bypass, "; "))
 			}
 		}
 	}
@@ -893,6 +911,41 @@ func checkD7D8(c *Ctx) {
 		c.R.Fail("D8", p.FnKey(ctor)+"#zero-share-test", p.Pos(ctor.Pos()), "the constructor does not reject configurations in which some priority's share is zero")
 	}
 	_ = types.Typ
+}
+
+// provablyError: v, returned from block b as the error result, is certainly non-nil: a sentinel,
+// a freshly made error, or a value tested non-nil on the way.
+func (p *Prog) provablyError(v ssa.Value, b *ssa.BasicBlock) bool {
+	if _, isErr := v.Type().Underlying().(*types.Interface); !isErr {
+		return false
+	}
+	switch x := v.(type) {
+	case *ssa.Const:
+		return false
+	case *ssa.MakeInterface:
+		return true
+	case *ssa.UnOp:
+		if _, isG := x.X.(*ssa.Global); isG && x.Op == token.MUL {
+			return true
+		}
+	case *ssa.Call:
+		if cal := p.Callee(x); cal != nil && !p.IsProduct(cal) {
+			switch p.funcDisplay(cal) {
+			case "errors.New", "fmt.Errorf", "errors.Join":
+				return true
+			}
+		}
+	}
+	for _, e := range DomEdges(b) {
+		iff := e.From.Instrs[len(e.From.Instrs)-1].(*ssa.If)
+		base, neg := condOf(iff.Cond)
+		if bo, isB := base.(*ssa.BinOp); isB && bo.X == v && isNilConst(bo.Y) {
+			if (bo.Op == token.NEQ) == ((e.Succ == 0) != neg) {
+				return true
+			}
+		}
+	}
+	return false
 }
 
 // checkD5b: the verdict of every checked division is tested, and a non-nil verdict is returned.
